@@ -9,6 +9,7 @@ import TFV.Model.NpQ
 import TFV.Lemmas.Net
 import TFV.Generated.Src.Net_max_axis
 import TFV.Generated.Src.Net_softmax_numba
+import TFV.Generated.Src.Net_multiactivation2d
 
 namespace TFV.Properties.Src.SoftmaxKernel
 open TFV.NpQ TFV.Generated.Src
@@ -90,5 +91,48 @@ theorem C12_src_softmax_rows (expo : Rat → Rat) (hpos : ∀ z, 0 < expo z) (X 
   unfold rowSoftmax
   simp only [hsum, hnz, if_false, List.map_map]
   exact ⟨h1, h2⟩
+
+/-- the pointwise activation behind each of the codes 0 - 4 (`expo` = exp, `tanhf` = tanh) -/
+def actOf (expo tanhf : Rat → Rat) : Nat → Rat → Rat
+  | 0, a => 1 / (1 + expo (-a))                     -- sigmoid
+  | 1, a => a * (if a > 0 then 1 else 0)            -- rectifier
+  | 2, a => expo (-(a ^ 2))                         -- Gaussian
+  | 3, a => tanhf a
+  | _, a => a                                       -- 4: the identity
+
+/-- `multiactivation2d`: the codes 0 - 4 apply their formula to every entry on its own (so a node's value depends on that node's
+    pre-activation alone), code 5 is the softmax kernel, every other code is an error -/
+theorem C12_src_multiactivation2d (expo tanhf : Rat → Rat) (X : Mat) (k : Nat) :
+    Net_multiactivation2d expo tanhf X k =
+      if k ≤ 4 then some (NpQ.map (actOf expo tanhf k) X)
+      else if k = 5 then Net_softmax_numba expo X
+      else none := by
+  unfold Net_multiactivation2d
+  match k with
+  | 0 => simp [NpQ.map, actOf, List.map_map, Function.comp]
+  | 1 => simp [NpQ.map, actOf]
+  | 2 => simp [NpQ.map, actOf, List.map_map, Function.comp]
+  | 3 => simp [NpQ.map, actOf]
+  | 4 =>
+    have hid : NpQ.map (actOf expo tanhf 4) X = X := by
+      cases X with
+      | mk nc rows =>
+        simp only [NpQ.map, Mat.mk.injEq, true_and]
+        conv => rhs; rw [← List.map_id rows]
+        apply List.map_congr_left
+        intro r _
+        conv => rhs; rw [id, ← List.map_id r]
+        apply List.map_congr_left
+        intro a _
+        rfl
+    simp [hid]
+  | 5 =>
+    simp only [show ¬ (5 : Nat) ≤ 4 by omega, if_false, if_true, show (5:Nat) ≠ 0 by omega, show (5:Nat) ≠ 1 by omega, show (5:Nat) ≠ 2 by omega,
+      show (5:Nat) ≠ 3 by omega, show (5:Nat) ≠ 4 by omega]
+  | n + 6 =>
+    have h1 : ¬ (n + 6 ≤ 4) := by omega
+    have h2 : ¬ (n + 6 = 5) := by omega
+    simp only [h1, h2, if_false, show n + 6 ≠ 0 by omega, show n + 6 ≠ 1 by omega, show n + 6 ≠ 2 by omega, show n + 6 ≠ 3 by omega,
+      show n + 6 ≠ 4 by omega]
 
 end TFV.Properties.Src.SoftmaxKernel
